@@ -22,7 +22,8 @@ def run_impl(ops, timeout=1800, mem='4GiB'):
     """the real code (harness child process); a crash or hang ends the stream early"""
     env = dict(GOENV, GOMEMLIMIT=mem)
     data = ('\n'.join(ops) + '\n').encode()
-    rc, out = run([CORR, 'run'], env=env, stdin=data, timeout=timeout)
+    # the library logs to stderr: keep it out of the stream
+    rc, out = run([CORR, 'run'], env=env, stdin=data, timeout=timeout, stderr=subprocess.DEVNULL)
     ls = _lines(out, len(ops))
     crashed = None
     if rc != 0 or len(ls) < len(ops):
